@@ -11,7 +11,7 @@ from ..core import e1, lasgen, space
 PROPERTY = "C07"
 LEVEL = "exploration"
 RULE = (
-    "(as built, rounds 4-5: WRAP YES header over unwrapped data with use_normal_engine_for_wrapped=False for every (d, c, r); two data sections; an ISO-date column with hyphen-bearing remarks; NaN filler columns overwritten in place (siblings and a re-read stay NaN)) "
+    "(round 8: WRAP YES declared with no curve declared at all, default options, both engines, every (c, r): c unnamed curves of r rows) (as built, rounds 4-5: WRAP YES header over unwrapped data with use_normal_engine_for_wrapped=False for every (d, c, r); two data sections; an ISO-date column with hyphen-bearing remarks; NaN filler columns overwritten in place (siblings and a re-read stay NaN)) "
     "files with d declared curves (distinct unit/value/descr each), c data columns and r rows whose cell (i, j) is "
     "100(i+1)+(j+1) (optionally negated outside the index); unwrapped for every (d, c, r); WRAP YES for c == d with "
     "every composition of the c tokens of a depth step into physical lines; rows around the 20-line sniffing window "
